@@ -86,6 +86,8 @@ type GlobalInv struct {
 	PkgPath string
 	Var     string
 	Clause  *Clause
+	MapKey  string // for `maps` entries: quoted key and value identifier
+	MapVal  string
 }
 
 type Contracts struct {
@@ -222,6 +224,12 @@ func (cs *Contracts) parseFile(file, pkgPath string) error {
 		case "global":
 			// global <var> invariant <expr>
 			f := strings.Fields(rest)
+			if len(f) == 4 && f[1] == "maps" {
+				// global <var> maps "<key>" <Ident>: entry of a map literal (checked syntactically)
+				cs.Globals = append(cs.Globals, &GlobalInv{PkgPath: pkgPath, Var: f[0], MapKey: f[2], MapVal: f[3],
+					Clause: &Clause{Kind: "global", Text: fmt.Sprintf("has(%s, %s) && %s[%s] == %s", f[0], f[2], f[0], f[2], f[3]), File: file, Line: it.line}})
+				continue
+			}
 			if len(f) < 3 || f[1] != "invariant" {
 				return fmt.Errorf("%s:%d: bad global clause", file, it.line)
 			}
